@@ -33,6 +33,7 @@ class ConcWorld(impl_run.RunWorld):
     def __init__(self, prog, mode):
         self.mode = mode
         self.traces = {}
+        self.last_sites = {}
         self.gates = {}
         prog = dict(prog)
         prog["async"] = (mode == "asyncio")
@@ -40,6 +41,16 @@ class ConcWorld(impl_run.RunWorld):
 
     def whose(self):
         return CURRENT.get()
+
+    # which object a violated condition was evaluated on is the business of the task that evaluated it (the
+    # conditions of a class are shared by its instances)
+    @property
+    def last_site(self):
+        return self.last_sites.setdefault(CURRENT.get(), {})
+
+    @last_site.setter
+    def last_site(self, v):
+        self.last_sites[CURRENT.get()] = v
 
     # logging goes to the current task
     @property
